@@ -651,10 +651,12 @@ class _Eval:
         self.n_eval = 0
         self.rows: list = []
 
-    def _note(self, spec, point: dict, where: str, problems: list, sub_last: dict | None = None) -> list:  # noqa: ANN001
+    def _note(self, spec, point: dict, where: str, problems: list, sub_last: dict | None = None,  # noqa: ANN001
+              inherit: dict | None = None) -> list:
         keys = []
         for prob in problems:
-            key = _where_key(prob, point["last"], sub_last)
+            # a state that was already unopenable before the recovering open started keeps its original attribution
+            key = (inherit or {}).get(prob[1]) or _where_key(prob, point["last"], sub_last)
             keys.append(key)
             ent = self.found.get(key)
             if ent is None:
@@ -678,6 +680,7 @@ class _Eval:
             problems, stats = _verify(p["dir"], self.keys, self.uses, self.runner.records, acked, p["no"], sub)
             if sub is not None:
                 sub.check()
+            inherit = {prob[1]: _where_key(prob, p["last"]) for prob in problems if prob[2]}
             # ---- reach probes / coverage keys
             files = os.listdir(os.path.join(p["dir"], "sqlite"))
             if self.sel.report_primary(k):
@@ -717,7 +720,7 @@ class _Eval:
                     problems2, stats2 = _verify(q["dir"], self.keys, self.uses, self.runner.records, acked, p["no"], None)
                     self.n_eval += 1
                     c.probe("second_crash_during_recovery")
-                    keys2 = self._note([k, q["idx"]], p, f"{tag} -> {q['tag']}", problems2, q["last"])
+                    keys2 = self._note([k, q["idx"]], p, f"{tag} -> {q['tag']}", problems2, q["last"], inherit)
                     c.nontrivial(["second", tag, q["kind"], q["tag"]])
                     nvis2 = ",".join(f"{t}={len(v)}" for t, v in sorted(stats2["visible"].items()))
                     c.world.trace.event("crash2", q["kind"], f"{k}.{q['idx']}|{q['tag']}",
@@ -1190,13 +1193,15 @@ def simplify(case: dict):  # noqa: ANN201
     if case.get("scenario") in ("strace",) or isinstance(case.get("crash"), list):
         return
     res = execute(dict(case, scenario="scripted" if case.get("scenario") == "selfkill" else case.get("scenario")))
-    for v in res.get("violations", []):
-        for spec in v.get("crash_points", [])[:1]:
-            cand = dict(case)
-            cand["scenario"] = "pinned"
-            cand["crash"] = [spec]
-            cand["recovery"] = "none"
-            yield cand
+    for second in (True, False):          # first-crash-only candidates last: the runner keeps the last one that still fails
+        for v in res.get("violations", []):
+            specs = [sp for sp in v.get("crash_points", []) if isinstance(sp, list) == second]
+            for spec in specs[:1]:
+                cand = dict(case)
+                cand["scenario"] = "pinned"
+                cand["crash"] = [spec]
+                cand["recovery"] = "none"
+                yield cand
 
 
 # =========================================================================== entry point
